@@ -44,6 +44,9 @@ ExpandLogic(h) ==
   CASE h = "B" -> { <<0, x>> : x \in { Cmp("eq", nC, IntL(1)), Cmp("lt", nC, mC), Cmp("ge", mC, IntL(0)), Cmp("eq", sC, SL(<<97>>)),
                                        Cmp("eq", nC, NullL), Cmp("ne", sC, NullL), Cmp("eq", bC, BoolL("true")),
                                        Cmp("in", nC, Lst(<<IntL(1), IntL(3)>>)), C2("contains", sC, SL(<<97>>)),
+                                       \* two literals of one value spelled differently (a comparison is by value)
+                                       Cmp("eq", BoolL("TRUE"), BoolL("true")), Cmp("ne", BoolL("False"), BoolL("FALSE")),
+                                       Cmp("eq", FL("1.50"), FL("1.5")), Cmp("ne", FL("1E3"), FL("1e3")), Cmp("eq", IntL(1), IntL(1)),
                                        \* list items that are not literals
                                        Cmp("in", nC, Lst(<<mC, IntL(3)>>)), Cmp("in", nC, Lst(<<Bin("add", mC, IntL(1)), Bin("sub", IntL(0), mC)>>)) } }
                   \cup { <<1, Bool("and", HB, HB)>>, <<1, Bool("or", HB, HB)>>, <<1, Un("not", HB)>>,
@@ -94,7 +97,7 @@ ExpandStrings(h) ==
                   \cup { <<1, C2("substring", HS, IntL(k))>> : k \in {0, 1, 2} }
                   \cup { <<1, Call(Id0("substring"), <<HS, IntL(k), IntL(j)>>)>> : k \in {0, 1}, j \in {0, 1, 2} }
 ExpandMisc(h) ==
-  CASE h = "B" -> { <<0, x>> : x \in (IF Backend = "django" THEN {} ELSE {bC}) \cup { Cmp("eq", bC, BoolL("false")), Cmp("ne", bC, BoolL("true")), Cmp("eq", bC, NullL),
+  CASE h = "B" -> { <<0, x>> : x \in (IF Backend = "django" THEN {} ELSE {bC, Cmp("eq", Un("not", bC), NullL), Cmp("ne", Un("not", bC), NullL)}) \cup { Cmp("eq", bC, BoolL("false")), Cmp("ne", bC, BoolL("true")), Cmp("eq", bC, NullL),
                                        Cmp("eq", NullL, nC), Cmp("ne", NullL, sC),
                                        \* null on the LEFT of a compound operand
                                        Cmp("eq", NullL, Cmp("eq", nC, mC)), Cmp("ne", NullL, C2("contains", sC, SL(<<97>>))),
